@@ -90,7 +90,7 @@ def task_roman():
 
         hi = 3999
         assum = [nt >= 1, nt <= hi]
-        o = explore_and_prove(lambda: roman(n), assum, goal, max_paths=5000, deadline_s=900, str_mul_fork=9)
+        o = explore_and_prove(lambda: roman(n), assum, goal, max_paths=5000, deadline_s=400, str_mul_fork=9)
         ot = explore_and_prove(lambda: roman(n), [nt >= 1, nt <= 30], lambda p: goal(p, True), max_paths=100, deadline_s=60, max_fail=1, str_mul_fork=9)
         res.update(obligations=o.obligations, discharged=o.discharged, queries=o.queries, paths=o.paths, twin=twin_verdict(ot),
                    bounds="all n in 1..3999 (forking fallback: one path per distinct numeral structure)")
@@ -103,6 +103,18 @@ def task_roman():
         else:
             v = "unsat-fallback"
     res["solver_s"] = time.time() - t0
+    # end points of the documented range, evaluated concretely (boundary sanity: a range guard with an off-by-one end point refuses them)
+    if v != "sat":
+        for n_end, expect in ((1, "I"), (3999, "MMMCMXCIX")):
+            try:
+                got_end = roman(n_end)
+            except Exception as e:
+                got_end = repr(e)
+            if got_end != expect:
+                v = "sat"
+                ok_struct = False
+                fallback_n = n_end
+                break
     if v == "unsat":
         res["discharged"] = 1
         res["status"] = "discharged"
